@@ -211,7 +211,42 @@ func runC15(c *Ctx) {
 					}
 				}
 				c.Eval(fmt.Sprintf("rt %d %d %d %x", lf.f, lf.lvl, ck, crc32.ChecksumIEEE(data)), lf.f != 0 || ck != 0)
-				// D. corruption of payload bytes with CRC32 (gzip drops the DVID checksum: not claimed)
+				// D0. gzip carries its own checksum instead of DVID's: with decompression requested a corrupted or
+				// truncated stored value must be reported as an error or still yield the original bytes (a flip
+				// in an unused gzip header field) — never other data
+				if lf.f == 2 && len(s) > 5 {
+					want := deserSafe(s, true)
+					limit := 48
+					if c.Thorough {
+						limit = 300
+					}
+					positions := (len(s) - 5) * 8
+					for p := 0; p < positions; p++ {
+						if positions > limit && r.Intn(positions) >= limit {
+							continue
+						}
+						m := append([]byte{}, s...)
+						m[5+p/8] ^= 1 << uint(p%8)
+						if got := deserSafe(m, true); got != "err" && got != want {
+							c.Report("O", "C15 gzip-corruption-returned-as-data", "a corrupted gzip-serialised value was returned as (other) data instead of being reported as an error",
+								tag+"\nserialized="+hx(clip(s))+fmt.Sprintf("\nflip bit %d of byte %d after the header", p%8, p/8)+"\ngot="+clipS(got)+"\noriginal="+clipS(want))
+							break
+						}
+					}
+					for k := 0; k < 6; k++ {
+						cut := 6 + r.Intn(len(s)-5)
+						if cut >= len(s) {
+							continue
+						}
+						if got := deserSafe(s[:cut], true); got != "err" && got != want {
+							c.Report("O", "C15 gzip-truncation-returned-as-data", "a truncated gzip-serialised value was returned as data instead of being reported as an error",
+								tag+"\nserialized="+hx(clip(s))+fmt.Sprintf("\ntruncated to %d of %d bytes", cut, len(s))+"\ngot="+clipS(got))
+							break
+						}
+					}
+					c.Count("gzip-corruption-cases")
+				}
+				// D. corruption of payload bytes with CRC32 (gzip drops the DVID checksum: see D0)
 				if ck == 1 && lf.f != 2 {
 					hdr := 5
 					flips := 0
